@@ -151,9 +151,9 @@ def SimpleRpcs : List Item → Prop
   | [] => True
   | e :: r => SimpleRpc e ∧ SimpleRpcs r
 
-/-- a service without options and comments -/
+/-- a service without comments (statement options allowed, methods without options) -/
 def SimpleService : Item → Prop
-  | .block kw t l _ name os ks => l.noComments ∧ os = [] ∧ IsIdent name ∧ kw = "service" ∧ t = 0 ∧ SimpleRpcs ks
+  | .block kw t l _ name os ks => l.noComments ∧ BlockOpts os ∧ IsIdent name ∧ kw = "service" ∧ t = 0 ∧ SimpleRpcs ks
   | _ => False
 
 theorem SimpleRpc.plain : ∀ e, SimpleRpc e → Plain e
@@ -166,13 +166,31 @@ theorem SimpleRpcs.plain : ∀ es, SimpleRpcs es → PlainList es
   | e :: r, h => ⟨SimpleRpc.plain e h.1, SimpleRpcs.plain r h.2⟩
 
 theorem SimpleService.plain : ∀ e, SimpleService e → Plain e
-  | .block _ _ _ _ _ _ ks, h => ⟨h.1, h.2.1 ▸ BlockOpts.nil, SimpleRpcs.plain ks h.2.2.2.2.2⟩
+  | .block _ _ _ _ _ _ ks, h => ⟨h.1, h.2.1, SimpleRpcs.plain ks h.2.2.2.2.2⟩
   | .field _, h => h.elim
   | .rpc _ _ _ _ _ _, h => h.elim
 
 theorem serviceBody_close (F l : Nat) (more : List PTok) (os : List RawOpt) (ms : List Item) :
     serviceBody (F + 1) (T (.sym '}') l :: more) os ms = some (os, ms, l, more) := by
   simp [serviceBody, T]
+
+theorem sb_opts (s : Nat) : ∀ (chunks : List (List PTok)), ChunksOk chunks → ∀ (F : Nat) (more : List PTok)
+    (os0 : List RawOpt) (ms : List Item),
+    serviceBody (F + chunks.length) (sh s chunks.flatten ++ more) os0 ms =
+      serviceBody F more (os0 ++ (rawsOf chunks).map (RawOpt.shift s)) ms
+  | [], _, F, more, os0, ms => by simp [rawsOf]
+  | c :: cs, h, F, more, os0, ms => by
+    obtain ⟨r, hr⟩ := h c (by simp)
+    obtain ⟨l, cm, tl, rfl⟩ := chunk_head hr
+    have hfr := optionStmt_frame s (sh s cs.flatten ++ more) _ _ _ hr
+    simp only [sh_nil, List.nil_append] at hfr
+    simp only [List.flatten_cons, sh_append, List.append_assoc, List.length_cons]
+    rw [← Nat.add_assoc]
+    simp only [sh_cons, PTok.shift, List.cons_append] at hfr ⊢
+    rw [serviceBody]
+    simp only [hfr]
+    rw [sb_opts s cs (fun c' hc' => h c' (by simp [hc'])) F more _ ms, rawsOf_cons hr, List.map_cons, List.append_assoc]
+    rfl
 
 theorem sb_rpcs : ∀ (es : List Item), SimpleRpcs es → ∀ (n : Nat) (first : Bool) (le0 lt L : Nat) (g : Bool) (F : Nat)
     (os : List RawOpt) (ms : List Item) (rest : List PTok),
@@ -233,8 +251,8 @@ theorem simpleRpcs_noCh : ∀ (es : List Item) (n : Nat) (first : Bool) (le0 lt 
 theorem simpleService_noCh : ∀ (e : Item) (n : Nat), SimpleService e → CmdsNoCh x (itemCmds n e)
   | .block kw t l i name os kids, n, h => by
     obtain ⟨hl, ho, hname, hkw, _, hk⟩ := h
-    subst ho hkw
-    rw [blockCmds_simple n "service" t l i name kids hl]
+    subst hkw
+    rw [blockCmds_opts n "service" t l i name os kids hl]
     have hkids := simpleRpcs_noCh hx kids (n + 1) true 0 0 hk
     apply CmdsNoCh.append _ (cmdsNoCh_gap x)
     split
@@ -243,7 +261,8 @@ theorem simpleService_noCh : ∀ (e : Item) (n : Nat), SimpleService e → CmdsN
       simp only [String.toList_append]
       exact NoCh.append hx (NoCh.append hx (NoCh.append hx (noCh_lit hx "service" (by simp)) (noCh_lit hx " " (by simp)))
         (noCh_ident hx hname)) (noCh_lit hx " {}" (by simp))
-    · apply CmdsNoCh.append (CmdsNoCh.append _ hkids) (cmdsNoCh_endl x _ (noCh_ind hx n "}" (noCh_lit hx "}" (by simp))))
+    · refine CmdsNoCh.append ?_ (CmdsNoCh.append (optCmds_noCh hx n os ho)
+        (CmdsNoCh.append hkids (cmdsNoCh_endl x _ (noCh_ind hx n "}" (noCh_lit hx "}" (by simp))))))
       apply cmdsNoCh_line
       apply noCh_ind hx
       simp only [String.toList_append]
@@ -274,29 +293,37 @@ theorem top_service : ∀ (e : Item), SimpleService e → ∀ (s G : Nat) (a : A
   | .rpc _ _ _ _ _ _, h, _, _, _, _, _, _ => h.elim
   | .block kw t l i name opts kids, h, s, G, a, more, hm, hG => by
     obtain ⟨hl, ho, hname, hkw, ht, hk⟩ := h
-    subst ho hkw ht
-    rw [need1_block_nil] at hG
-    have htr : trailOf (toksOf (elemsCmds (0 + 1) kids true 0 0) false (s + 1) ++
-        T (.sym '}') (rdKids kids true 0 0 (s + 1) false).2 :: more) = "" := trailOf_toksOf _ _ _ _ rfl
+    subst hkw ht
+    simp only [need1] at hG
+    have htr : trailOf (sh s (optToks0 opts) ++ (toksOf (elemsCmds (0 + 1) kids true 0 0) (!opts.isEmpty) (s + 1 + optSpan opts) ++
+        T (.sym '}') (rdKids kids true 0 0 (s + 1 + optSpan opts) (!opts.isEmpty)).2 :: more)) = "" :=
+      trailOf_opts _ _ _ (trailOf_toksOf _ _ _ _ rfl)
     have htr0 : trailOf (T (.sym '}') s :: more) = "" := rfl
-    by_cases hempty : kids.isEmpty = true
-    · have hnil : kids = [] := by simpa using hempty
-      subst hnil
-      simp only [itemToks_block_nil, rdItem_block_nil, List.isEmpty_nil, if_true]
+    by_cases hempty : (kids.isEmpty && opts.isEmpty) = true
+    · simp only [Bool.and_eq_true, List.isEmpty_iff] at hempty
+      obtain ⟨rfl, rfl⟩ := hempty
+      simp only [itemToks, rdItem, List.isEmpty_nil, Bool.and_self, if_true]
       rw [lineToks_empty 0 "service" name s isIdent_service hname]
       simp only [List.cons_append, List.nil_append]
       rw [topLevel_service_step]
       obtain ⟨G', rfl⟩ : ∃ G', G = G' + 1 := ⟨G - 1, by omega⟩
       rw [serviceBody_close]
       simp only [mkOpts, groupOpts, unlocateShared, List.map_nil, htr0, mkLoc_plain]
-    · have hne : kids.isEmpty = false := by simpa using hempty
-      simp only [itemToks_block_nil, rdItem_block_nil, hne, Bool.false_eq_true, if_false]
+    · have hne : (kids.isEmpty && opts.isEmpty) = false := by simpa using hempty
+      simp only [itemToks, rdItem, hne, Bool.false_eq_true, if_false]
       rw [lineToks_open 0 "service" name s isIdent_service hname, lineToks_close]
       simp only [List.cons_append, List.nil_append, List.append_assoc]
       rw [topLevel_service_step]
-      obtain ⟨F', hGe⟩ : ∃ F', G = (F' + 1) + kids.length := ⟨G - kids.length - 1, by omega⟩
-      rw [hGe, sb_rpcs kids hk 1 true 0 0 (s + 1) false F' [] [] _, serviceBody_close]
-      simp only [List.nil_append, mkOpts, groupOpts, unlocateShared, List.map_nil, htr, mkLoc_plain]
+      obtain ⟨F', hGe⟩ : ∃ F', G = ((F' + 1) + kids.length) + (optChunks opts).length :=
+        ⟨G - kids.length - (optChunks opts).length - 1, by omega⟩
+      have hopts := sb_opts s (optChunks opts) ho.chunks ((F' + 1) + kids.length)
+        (toksOf (elemsCmds (0 + 1) kids true 0 0) (!opts.isEmpty) (s + 1 + optSpan opts) ++
+          T (.sym '}') (rdKids kids true 0 0 (s + 1 + optSpan opts) (!opts.isEmpty)).2 :: more) [] []
+      rw [ho.whole] at hopts
+      rw [hGe, hopts, sb_rpcs kids hk 1 true 0 0 (s + 1 + optSpan opts) (!opts.isEmpty) F' _ [] _, serviceBody_close]
+      have hmk := mkOpts_block opts s
+      unfold optRaws0 at hmk
+      simp only [List.nil_append, htr, mkLoc_plain, hmk]
 
 /-- what a file holds at its top level -/
 def SimpleTop (e : Item) : Prop := (SimpleItem e ∧ IsBlock e) ∨ SimpleService e
